@@ -164,6 +164,49 @@ CHECKS["C07"] = dict(
     note=TB + "Partial overall: Tier B/C builders and `Compile` by validation only; known findings (several reachable from MPCL "
               "programs) are re-derived on every run.")
 
+CHECKS["C05"] = dict(
+    category="translation_validation", design_ref="DESIGN.md section 2 / C05",
+    technique="implementation-side differential oracle (real streaming pair vs real whole-circuit Compile+Compute) + Lean 4 proofs about executable models of Program.GC / wire allocation / the streamed gate-record codec, tied by per-run correspondence",
+    text=("Real Compiler.Stream <-> StreamEvaluator sessions vs real whole-circuit Compile+Compute on generated alias-heavy / "
+          "wide (ids beyond 65535) / unsized / multi-output MPCL programs: values and output types at both parties. Lean "
+          "models of Program.GC, the WireAllocator free lists and streamer id rewiring, and of the streamed gate-record "
+          "codec with garble/eval, compared per run with the real GC'd step list, real wire ids parsed off the wire, and "
+          "real Streaming.Garble bytes. Proved: codec round trip for both id encodings and all flags; a streamed "
+          "gate/circuit/program keeps the C01 relation on the global wire store with no evaluator error and equal tweak "
+          "counters; GC is safe without alias chains/concat; negation witnesses for both; safety of a transitively closed "
+          "alias table."),
+    note=TB + "Partial: AST->SSA front end and circuit cache validated only; full GC safety is false on the pinned tree (known "
+              "findings with Lean witnesses, or repaired by a fix: commit, see known_findings.json).")
+
+CHECKS["C10"] = dict(
+    category="proof", design_ref="DESIGN.md section 2 / C10",
+    technique="Lean 4 theorems (n-party XOR-share simulation relation, Beaver algebra, bucket-schedule topological proof, stream view of the triple pool) + three byte-exact model/implementation correspondences + real-network oracle",
+    text=("Proved for every number of parties, every single-assignment circuit without OR gates, all inputs, all sharing and "
+          "triple randomness, and all bit-COT outputs satisfying C06's correlation: every dealt triple word is valid; "
+          "TriplePool.Get removes exactly ceil(count/64) stream words whatever the batch arrival schedule; the level-wise "
+          "evaluation keeps XOR-of-shares equal to the plain value on every wire; every party returns Circuit.compute. The "
+          "same definitions are replayed against tripleBatch at 2..5 parties, Append/Get sequences with blocking Gets, and "
+          "real loopback-TCP sessions (wire-share vectors, consumed words, outputs byte-exact). Oracle: real sessions of "
+          "2..5 parties with random start order and delays: results = Circuit.Compute, share invariant on every wire, "
+          "triple relation on pool snapshots, lock-step consumption, completion under a deadline."),
+    note=TB + "The bit-COT correlation is a hypothesis (C06); connection set-up and goroutine/TCP timing are sampled; privacy is "
+              "not claimed; Outputs.Split not modelled; hook gmw/verif_export.go.")
+
+CHECKS["C15"] = dict(
+    category="proof", design_ref="DESIGN.md section 2 / C15",
+    technique="Lean 4 theorems on a byte-level model of the malicious-mode IKNP/KOS check (lock-step induction with an arbitrary error matrix; bilinearity and no-zero-divisors of the carry-less product) + byte-exact correspondence + exhaustive fault enumeration on the real sender compared with the proved acceptance condition",
+    text=("Honest malicious-mode executions never abort (every n, choice vector, PRG, challenge generator). With any "
+          "alteration E of the transmitted payload and check matrices and any altered response, the sender accepts IFF "
+          "sum_r chi_r*(E_r & Delta) xor (x xor x')*Delta xor (t xor t') = 0 and then outputs the honest labels xor "
+          "E_r & Delta; alterations in unselected columns are harmless; effective alterations within one row abort "
+          "deterministically; response-only alterations abort unless consistent. mul128 is the GF(2) polynomial product and "
+          "the CLMUL assembly's algorithm equals the generic one. Every run compares real mul128/clmul64/inner product and "
+          "full malicious sessions byte for byte with the model and replays every enumerated alteration (all positions "
+          "for n <= 9 in thorough) on a fresh real sender against the acceptance condition and a model-independent oracle."),
+    note=TB + "Partial: multi-row acceptance (probability about 2^-128 over the challenge) is not a Lean statement; a matrix flip "
+              "combined with a chi-aware response is accepted with probability 1/2 per guessed Delta bit (known finding, "
+              "inherent to the KOS check); PCLMULQDQ semantics trusted; hook ot/verif_export_c15.go.")
+
 NOT_YET = {}
 
 PROPS = [json.loads(l)["id"] for l in open(os.path.join(VERIF, "properties.jsonl"))]
@@ -213,7 +256,7 @@ def main():
     print("MANIFEST.json: %d checks, %d not_applicable" % (len(checks), len(na)))
 
 
-HOOK_COMMITS = ["4c985c7"]
+HOOK_COMMITS = ["4c985c7", "3a4fdd0", "3a914f6"]
 
 if __name__ == "__main__":
     main()
